@@ -57,7 +57,6 @@ def run_workers(binary, scen, sets, base, n, wall_budget=None):
         cmd = [binary, "--worker", scen, "--from", str(base + w), "--count", str(per), "--stride", str(NW), "--sanlog", SANLOG] + sets_args(sets)
         procs.append(subprocess.Popen(cmd, stdout=subprocess.PIPE, stderr=subprocess.DEVNULL, text=True, bufsize=1 << 20))
     t0 = time.time()
-    out = []
     import selectors
     sel = selectors.DefaultSelector()
     for p in procs:
@@ -81,16 +80,15 @@ def run_workers(binary, scen, sets, base, n, wall_budget=None):
                 line, bufs[p] = bufs[p].split("\n", 1)
                 if line.strip():
                     try:
-                        out.append(json.loads(line))
+                        yield json.loads(line)
                     except Exception:
-                        out.append({"error": "unparsable result line", "raw": line[:200]})
+                        yield {"error": "unparsable result line", "raw": line[:200]}
         if wall_budget and time.time() - t0 > wall_budget:
             for p in alive:
                 p.kill()
             break
     for p in procs:
         p.wait()
-    return out
 
 
 def run_one(binary, args, timeout=120):
@@ -228,7 +226,9 @@ def ddmin(items, test, budget):
     return items
 
 
-def minimise(rp, plan, cls, max_tests=250):
+def minimise(rp, plan, cls, max_tests=None):
+    if max_tests is None:
+        max_tests = int(os.environ.get("VERIF_MINIMISE_BUDGET", "250"))
     budget = [max_tests]
     plan = copy.deepcopy(plan)
     for key in ("fates", "ops"):
